@@ -64,10 +64,13 @@ def _seg_ok(v, name):
     return name not in T.PSEUDO_SEGMENTS and name in T.lib(v).SEGMENTS and not T.segment_defect(v, name)
 
 
-def anchor_index(v, ref):
-    """index of the first direct SEG child with max == 1 whose predecessors are all optional, else None"""
+def anchor_index(v, ref, depth=0):
+    """index of the first direct child with max == 1 whose predecessors are all optional - a segment, or a group that has
+    such an anchor itself (its recurrence is the recurrence of a non-repeatable member just the same) - else None"""
     for i, (name, r, (mn, mx), kind) in enumerate(children(ref)):
         if kind == 'SEG' and mx == 1 and _seg_ok(v, name):
+            return i
+        if kind == 'GRP' and mx == 1 and depth < 3 and _usable_ref(v, r) and anchor_index(v, r, depth + 1) is not None:
             return i
         if mn >= 1:
             return None
@@ -126,11 +129,14 @@ def _tree(draw, v, ref, mode, places, unique, depth, rep_index=0, anchor=None, p
             if a is None:
                 n = min(n, 1) if mn <= 1 else n   # groups without an anchor: one instance (required minimum kept)
             for rep in range(n):
-                sub = draw(_tree(v, r, mode, places, unique, depth + 1, rep, a if n > 1 or rep > 0 else None,
-                                 max(p_opt - 1, 2)))
+                if anchor is not None and i == anchor:
+                    # this group is the anchor of its parent: in every repetition of the parent it starts with its own anchor
+                    sub_rep, sub_anchor = rep_index, a
+                else:
+                    sub_rep, sub_anchor = rep, (a if n > 1 or rep > 0 else None)
+                sub = draw(_tree(v, r, mode, places, unique, depth + 1, sub_rep, sub_anchor, max(p_opt - 1, 2)))
                 if not sub:
-                    sub = draw(_tree(v, r, mode, places, unique, depth + 1, rep, a if n > 1 or rep > 0 else None,
-                                     max(p_opt - 1, 2), True))
+                    sub = draw(_tree(v, r, mode, places, unique, depth + 1, sub_rep, sub_anchor, max(p_opt - 1, 2), True))
                 if sub:
                     out.append({'k': 'G', 'n': name, 'i': i, 'c': sub})
     return out
